@@ -84,6 +84,7 @@ type PReq struct {
 	Body       int         `json:"body,omitempty"`       // request body length
 	ChunkedReq bool        `json:"chunked_req,omitempty"`
 	SameConn   bool        `json:"same_conn,omitempty"` // reuse the previous connection/tunnel of this client
+	Truncate   int         `json:"truncate,omitempty"`  // pseudo request: every cache file loses its last n bytes (a damaged disk)
 	Evict      bool        `json:"evict,omitempty"`     // pseudo request: delete every stored entry (an eviction placed by the scheduler)
 	Raw        string      `json:"raw,omitempty"`       // literal request bytes (C16)
 	Cfg        string      `json:"cfg,omitempty"`       // pseudo request: apply this update document to the running configuration
@@ -850,6 +851,18 @@ func (w *proxyWorld) clientTask(ci int) {
 			w.exch = append(w.exch, ex)
 			w.mu.Unlock()
 			w.res.fault("config_changed_at_run_time")
+			continue
+		}
+		if q.Truncate > 0 {
+			files, _ := os.ReadDir(filepath.Join(w.dir, "cache"))
+			for _, f := range files {
+				pth := filepath.Join(w.dir, "cache", f.Name())
+				if st, err := os.Stat(pth); err == nil && !st.IsDir() && st.Size() > int64(q.Truncate) {
+					if os.Truncate(pth, st.Size()-int64(q.Truncate)) == nil {
+						w.res.fault("cache_file_truncated")
+					}
+				}
+			}
 			continue
 		}
 		if q.Evict {
